@@ -620,6 +620,10 @@ pub fn expand(base: &Scenario, dry: &crate::exec::Report, tier: Tier) -> Vec<Sce
     // further commit: with thousands of events in the target step (multi-page values) fewer points
     // per scenario keep one run within its wall-clock limit; the budget then goes to more scenarios
     let cap = if mode != "fail" && tier == Tier::Thorough { cap.min((if mode == "power" { 40_000 } else { 120_000 } / n.max(1)).max(if mode == "power" { 12 } else { 24 })) } else { cap };
+    // nested crash points multiply the images per point (1 + k + k^2 for k points per recovery,
+    // two levels): about 300 image checks per scenario at most
+    let k = base.extra.get("nested").and_then(|x| x.as_u64()).unwrap_or(0);
+    let cap = if mode != "fail" && tier == Tier::Thorough && k > 0 { cap.min((300 / ((1 + k + k * k) * if mode == "power" { 4 } else { 1 })).max(10)) } else { cap };
     let mut chosen: Vec<u64> = if all && n <= cap { (0..n).collect() } else {
         let mut v: Vec<u64> = pts.into_iter().collect();
         r.shuffle(&mut v);
